@@ -166,10 +166,28 @@ func runMMaps(typed bool, ms []MMap) (KObs, string) {
 		}
 	}
 	for i, m := range built {
+		if len(m) != len(ms[i]) {
+			return o, fmt.Sprintf("chunk %d: the input map changed its key set (%d keys, it had %d)", i, len(m), len(ms[i]))
+		}
 		for k, v := range m {
+			spec, had := ms[i][k]
+			if !had {
+				return o, fmt.Sprintf("chunk %d: the input map gained key %s", i, k)
+			}
 			g, ok := v.(*schema.Message)
-			if !ok || g == nil {
+			switch {
+			case !ok:
+				if spec.K != "val" || !reflect.DeepEqual(normalize(fromGo(v)), normalize(fromGo(spec.V.toGo()))) {
+					return o, fmt.Sprintf("chunk %d key %s: input value was modified", i, k)
+				}
 				continue
+			case g == nil:
+				if spec.K != "nilptr" {
+					return o, fmt.Sprintf("chunk %d key %s: input value became a nil message pointer", i, k)
+				}
+				continue
+			case spec.K != "msg":
+				return o, fmt.Sprintf("chunk %d key %s: input value was replaced by a message", i, k)
 			}
 			if why := sentinelsIntact(g); why != "" {
 				return o, fmt.Sprintf("chunk %d key %s: %s", i, k, why)
